@@ -540,6 +540,11 @@ func findPrefixesCore(node *RegexNode, res *[]*bytes.Buffer, ignoreCase bool) bo
 		// As with One and loops, set loops are handled the same as sets up to the min iteration limit.
 		case NtSet, NtSetloop, NtSetlazy, NtSetloopatomic:
 
+			// The enumerated chars of a negated set are the ones it does NOT match.
+			if node.Set.IsNegated() {
+				return false
+			}
+
 			setChars := node.Set.GetSetChars(maxPrefixes)
 
 			if len(setChars) == 0 {
